@@ -42,8 +42,8 @@ Fixpoint list_eqb {X} (e : X -> X -> bool) (a b : list X) : bool :=
   match a, b with [], [] => true | x :: r, y :: r' => e x y && list_eqb e r r' | _, _ => false end.
 Definition query_eqb := list_eqb beqb.
 
-Definition is_replace (s : sspec) (o : iop) : bool :=
-  match o with IAddDoc d _ => existsb (fun y => N.eqb d (fst y)) (sp_live s) | _ => false end.
+(* the complement of the guard of C09_scan_guarded (Model/KVIndex.v: fresh) *)
+Definition is_replace (s : sspec) (o : iop) : bool := negb (fresh s o).
 
 (* min/max of an empty field: the specification says nothing (None): not compared *)
 Definition spec_q_ok (k : qk) (sp ob : query) : bool :=
